@@ -28,7 +28,7 @@ def api_tasks(pid, tier, repo, seed, R):
         kind = info["kind"]
         table = api.api_of(kind)
         want = API_PROPS[pid]["methods"]
-        meths = [m for m, sp in table.items() if want == "all" or sp["kind"] == want]
+        meths = [m for m, sp in table.items() if (want == "all" or sp["kind"] == want) and not sp.get("attr")]
         modes = [True] if info["supports_threading"] else [False]
         if tier == "thorough" and info["supports_threading"]:
             modes = [True, False]
@@ -127,6 +127,31 @@ def c16_tasks(pid, tier, repo, seed, R):
     return tasks
 
 
+def c18_tasks(pid, tier, repo, seed, R):
+    from props import api
+    tasks = [dict(kind="c18", repo=repo, seed=seed, what="table", props=[pid], threads=True, label="C18:table")]
+    attr_dicts = [c for c in concrete_classes(R) if R["classes"][c]["isa"]["AttrDict"]]
+    for c in attr_dicts:
+        tasks.append(dict(kind="c18", repo=repo, seed=seed, what="protected", cname=c, props=[pid], threads=True,
+                          label=f"C18:protected:{c}"))
+        for role, rk in (("root", None), ("nested", "dict"), ("nested", "list")):
+            tasks.append(dict(kind="api", repo=repo, seed=seed, cname=c, role=role, rootkind=rk,
+                              methods=["__setattr__", "__delattr__", "__getattr__"], props=["C18", "C03", "C01"],
+                              rename_to="C18", threads=True, label=f"C18:attr:{c}:{role}{rk or ''}"))
+    # (c) internal attribute stores + family of created nodes: every public method and the constructors
+    for c in concrete_classes(R):
+        if "Attr" not in c:
+            continue
+        kind = R["classes"][c]["kind"]
+        meths = list(api.api_of(kind))
+        meths = [m for m in meths if not api.api_of(kind)[m].get("attr")]
+        for role, rk in (("root", None), ("nested", "dict")):
+            tasks.append(dict(kind="api", repo=repo, seed=seed, cname=c, role=role, rootkind=rk, methods=meths,
+                              props=["C18"], threads=True, label=f"C18:internal:{c}:{role}"))
+    tasks += def_tasks(pid, tier, repo, seed, R, ["_from_base"])
+    return tasks
+
+
 API_PROPS["C16"] = dict(methods="all", title="values are copied in and out")
 API_PROPS["C11"] = dict(methods="mutator", title="forbidden data never gets in")
 def c02_tasks(pid, tier, repo, seed, R):
@@ -144,6 +169,7 @@ def c02_tasks(pid, tier, repo, seed, R):
 EXTRA = {p: def_tasks for p in DEFS_FOR}
 EXTRA["C02"] = c02_tasks
 EXTRA["C16"] = c16_tasks
+EXTRA["C18"] = c18_tasks
 EXTRA["C11"] = c11_tasks
 EXTRA["C12"] = value_tasks
 EXTRA["C08"] = c08_tasks
